@@ -20,8 +20,11 @@ def exe(cmd):
     return os.path.join(BIN, cmd)
 
 
+# scratch space of the harnesses (Badger directories ...): under build/, never under /tmp; pruned by prune_cache()
+SCRATCH = os.path.join(BUILD, "tmp")
+os.makedirs(SCRATCH, exist_ok=True)
 GOENV = dict(os.environ, GOFLAGS="-mod=mod", GOPROXY="off", GOSUMDB="off",
-             GOTOOLCHAIN="local", CGO_ENABLED=os.environ.get("CGO_ENABLED", "0"))
+             GOTOOLCHAIN="local", CGO_ENABLED=os.environ.get("CGO_ENABLED", "0"), TMPDIR=SCRATCH)
 
 FORBIDDEN = re.compile(
     r"\b(Admitted|admit|Axiom|Axioms|Parameter|Parameters|Conjecture|Conjectures|Abort All)\b"
@@ -72,6 +75,15 @@ def prune_cache(keep=48):
         return
     for e in ents[keep:]:
         shutil.rmtree(e, ignore_errors=True)
+    # scratch directories left behind by harness processes that were killed (older than three hours)
+    now = time.time()
+    try:
+        for e in os.listdir(SCRATCH):
+            pth = os.path.join(SCRATCH, e)
+            if now - os.path.getmtime(pth) > 3 * 3600:
+                shutil.rmtree(pth, ignore_errors=True) if os.path.isdir(pth) else os.remove(pth)
+    except OSError:
+        pass
 
 
 def coq_gate():
@@ -197,12 +209,16 @@ def build_harness(cmd):
 def run_harness(cmd, args, timeout=1500, out_path=None):
     """Run a harness binary; returns (rc, stdout_text, seconds). stderr is kept apart (appended on failure)."""
     t0 = time.time()
+    import tempfile, shutil
+    os.makedirs(BUILD, exist_ok=True)
+    tmpd = tempfile.mkdtemp(prefix="tmp-%s-" % cmd, dir=BUILD)   # scratch (Badger directories ...) of the harness: removed afterwards
     try:
         p = subprocess.run([exe(cmd)] + [str(a) for a in args], stdout=subprocess.PIPE,
-                           stderr=subprocess.PIPE, timeout=timeout, env=GOENV)
+                           stderr=subprocess.PIPE, timeout=timeout, env=dict(GOENV, TMPDIR=tmpd))
         rc, out, err = p.returncode, p.stdout.decode("utf-8", "replace"), p.stderr.decode("utf-8", "replace")
     except subprocess.TimeoutExpired as e:
         rc, out, err = 124, (e.stdout or b"").decode("utf-8", "replace"), "[timeout after %ss]" % timeout
+    shutil.rmtree(tmpd, ignore_errors=True)
     if rc != 0:
         out += "\n[stderr] " + err[-3000:]
     if out_path:
